@@ -138,9 +138,60 @@ def funnel(chk, program):
                 ok = mname == 'decoder' and q in allowed[n.func.attr]
                 chk.check(ok, 'FE-FUNNEL', f"{mname}.{q}->{n.func.attr}", file=mod.rel(), line=n.lineno, func=q, expected=f"called only from {sorted(allowed[n.func.attr])}", found=f"{mname}.{q}")
 
+def endian_semantic(chk, program):
+    """[ENDIAN] decided on the interpreted decode path: a frame whose eight wire bytes are symbols w0..w7 (handed to _decode last wire byte first, as
+    every front-end does) must reach the generated decoder as the integer whose bits 8j..8j+7 are wire byte j.  -> True when decided"""
+    from .. import rules_filter as F, absint as A, teval
+    from ..model import AnalysisError
+    fn = program.fn('decoder', 'NMEA2000Decoder._call_decode_function')
+    try:
+        consts = F.module_consts(program)
+        sf, cf = F.facts_or_none(program)
+        db = program.db
+        d0 = next(d for d in db.defs if not d.group.complex and d.pgn != consts['ISO_CLAIM_PGN'] and len(d.group.defs) == 1)
+        dp = F.DecodePath(program, F.runtime_attrs(program, sf, cf, consts, [], []), consts)
+        wire = [A.sym_byte('w', j) for j in range(8)]
+        r = dp.feed(d0.pgn, d0.id, src=7, data_items=list(reversed(wire)))
+        da = r.get('decode_args')
+        if r['status'] != 'returned' or not da or len(da) != 1:
+            raise A.Unknown('the generated decoder was not reached with one argument')
+        v = da[0]
+        if not isinstance(v, A.AInt) or v.vec() is None:
+            raise A.Unknown(f"the decoder's argument was not followed: {v!r}"[:120])
+    except (A.Unknown, A.RaiseSignal, teval.EvalUnknown, KeyError, AttributeError, TypeError, AnalysisError, StopIteration) as u:
+        chk.unit('endian_not_interpretable', f"{type(u).__name__}: {u}"[:160])
+        return False
+    want = [(('w', j), k) for j in range(8) for k in range(8)]
+    got = A.B.trim(v.vec())
+    okk = _same_bits(got, wire)
+    chk.check(okk, 'ENDIAN', '_call_decode_function::payload-integer', file=DEC, line=fn.lineno, func='_call_decode_function',
+              expected='the integer handed to the generated decoder has wire byte j at bits 8j..8j+7 (little-endian over wire order)', found='ok' if okk else A.B.show_vec(got)[:200])
+    return True
+
+def _same_bits(vec, wire):
+    from .. import absint as A
+    it = A.Interp()
+    want = []
+    for b in wire:
+        x = it.byte_to_int(b)
+        bv = A.B.trim(x.vec()) if isinstance(x, A.AInt) and x.vec() is not None else None
+        if bv is None:
+            return False
+        want.extend(list(bv) + [0] * (8 - len(bv)))
+    return list(vec) + [0] * (len(want) - len(vec)) == want
+
+from ..rules_reasm import _ConfirmOnly as _ConfirmOnlyT
+
 def endian(chk, program):
+    if endian_semantic(chk, program):
+        # decided on the interpreted path; the reading of the spelling below only confirms
+        from ..rules_reasm import _ConfirmOnly
+        chk = _ConfirmOnly(chk, {'ENDIAN'})
     fn = program.fn('decoder', 'NMEA2000Decoder._call_decode_function')
     fb = [n for n in ast.walk(fn) if isinstance(n, ast.Call) and isinstance(n.func, ast.Attribute) and n.func.attr == 'from_bytes']
+    if not fb and not isinstance(chk, _ConfirmOnlyT):
+        chk.unknown('ENDIAN', '_call_decode_function::one-conversion', 'not interpretable, and no int.from_bytes in _call_decode_function: the bytes become an integer some other way', DEC, fn.lineno)
+        return
     chk.check(len(fb) == 1, 'ENDIAN', '_call_decode_function::one-conversion', file=DEC, line=fn.lineno, expected=1, found=len(fb), nontrivial=False)
     for c in fb:
         order = None
